@@ -137,10 +137,10 @@ func VH_C17_ChainRoundTrip() {
 	}
 }
 
-// VH_C17_ReadValidation: ReadCertChain on structured inputs [array(k), magic|wrong magic, maps...] where each
+// VH_C10_C17_ReadValidation: ReadCertChain on structured inputs [array(k), magic|wrong magic, maps...] where each
 // map carries a subset of {cert, ocsp, sct, unknown key} with 1-byte symbolic values (cert: a real DER certificate or a truncated one):
 // accepted iff k>=2, magic right, every map has a cert that parses, the first has ocsp, later ones none.
-func VH_C17_ReadValidation() {
+func VH_C10_C17_ReadValidation() {
 	vh.MustReach("accept", "reject")
 	ncert := vh.Choose(3) // 0..2 certificate maps
 	declared := ncert + 1 + vh.Choose(2) // array count: exact or one too many (truncated input)
